@@ -955,11 +955,7 @@ impl VirtualFileSystem for Memfs {
     /// assert_vfs_read_all!(vfs, &file, "foobar 1foobar 2\n");
     /// ```
     fn append_line<T: AsRef<Path>, U: AsRef<str>>(&self, path: T, line: U) -> RvResult<()> {
-        let line = line.as_ref().to_string();
-        if !line.is_empty() {
-            self.append_all(path, line + "\n")?;
-        }
-        Ok(())
+        self.append_all(path, line.as_ref().to_string() + "\n")
     }
 
     /// Append the given lines to to the target file including newlines
@@ -984,11 +980,8 @@ impl VirtualFileSystem for Memfs {
     /// assert_vfs_read_all!(vfs, &file, "1\n2\n");
     /// ```
     fn append_lines<T: AsRef<Path>, U: AsRef<str>>(&self, path: T, lines: &[U]) -> RvResult<()> {
-        let lines = lines.iter().map(|x| x.as_ref()).collect::<Vec<&str>>().join("\n");
-        if !lines.is_empty() {
-            self.append_all(path, lines + "\n")?;
-        }
-        Ok(())
+        let lines = lines.iter().map(|x| x.as_ref().to_string() + "\n").collect::<String>();
+        self.append_all(path, lines)
     }
 
     /// Change all file/dir permissions recursivly to `mode`
@@ -2234,11 +2227,8 @@ impl VirtualFileSystem for Memfs {
     /// assert_vfs_read_all!(vfs, &file, "1\n2\n".to_string());
     /// ```
     fn write_lines<T: AsRef<Path>, U: AsRef<str>>(&self, path: T, lines: &[U]) -> RvResult<()> {
-        let lines = lines.iter().map(|x| x.as_ref()).collect::<Vec<&str>>().join("\n");
-        if !lines.is_empty() {
-            self.write_all(path, lines + "\n")?;
-        }
-        Ok(())
+        let lines = lines.iter().map(|x| x.as_ref().to_string() + "\n").collect::<String>();
+        self.write_all(path, lines)
     }
 
     /// Returns the user ID of the owner of this file
